@@ -37,7 +37,7 @@ def gen(ch, prof):
             ops.append({"op": g.weighted([("load_p", 4), ("load", 2), ("promote", 2), ("demote", 3), ("update", 4),
                                           ("complete_id", 1), ("mark_complete", 1), ("mark_canceled", 1),
                                           ("reload_jobs", 1), ("read", 1), ("sleep", 2), ("rogue_complete_id", 1),
-                                          ("takeover", 1)]),
+                                          ("takeover", 1), ("prepare_resubmit", 3)]),
                         "a": g.rint(0, 7), "b": g.rint(0, 7), "d": g.pick([0.0, 0.1, 1.0, 3.0])})
         handles.append({"host": hosts[g.rint(0, len(hosts) - 1)], "ops": ops, "start": g.pick([0.0, 0.0, 0.3, 2.0])})
     env = {"lock_behaviour": g.pick(["break_stale", "never_break"]), "stick": g.pick([0.3, 0.5, 0.7, 0.9]),
@@ -139,8 +139,8 @@ class Mon:
             self.bad("unreadable_after_write", "status unreadable after an operation released the lock",
                      f"seq {seq}: {name}: {slot['err']}")
             return
-        writes_cfg = name in ("promote", "demote", "update", "mark_complete", "mark_canceled", "takeover")
-        writes_js = name in ("update", "complete_id")
+        writes_cfg = name in ("promote", "demote", "update", "mark_complete", "mark_canceled", "takeover", "prepare_resubmit")
+        writes_js = name in ("update", "complete_id", "prepare_resubmit")
         if name == "load_p":
             want = pre["submitter"] is None
             if exc:
@@ -310,7 +310,7 @@ def runner(scenario, prof, seed, trace=None, then_generate=False, props=()):
                     if c is None and name not in ("load", "load_p"):
                         name = "load_p" if o["a"] % 2 else "load"
                     # protocol: mutate only while promoted; demote only if promoted
-                    if name in ("update", "complete_id", "mark_complete", "mark_canceled", "demote") and not promoted:
+                    if name in ("update", "complete_id", "mark_complete", "mark_canceled", "demote", "prepare_resubmit") and not promoted:
                         name = "promote" if c is not None and o["b"] % 2 else "load_p"
                     if name in ("load_p", "promote") and promoted:
                         name = "update"
@@ -410,6 +410,24 @@ def runner(scenario, prof, seed, trace=None, then_generate=False, props=()):
                             w.emit("c10_op", vp, **desc)
                             c.complete_hpc_job_id(c.job_status.hpc_job_ids[0])
                             ret = {"value": None, "mem": mem_of(c)}
+                        elif name == "prepare_resubmit":
+                            # what resubmit-jobs does after its promotion: reset a selection of jobs, both files
+                            # rewritten in one lock hold
+                            if c.job_status is None:
+                                c.deserialize_jobs()
+                            if not c.config.is_complete:
+                                name = desc["op"] = "mark_complete"
+                                w.emit("c10_op", vp, **desc)
+                                c.mark_complete()
+                                ret = {"value": None, "mem": mem_of(c)}
+                            else:
+                                desc["jv"] = c.job_status.version
+                                names = [j.name for j in c.iter_jobs()]
+                                sel = set(names[: 1 + o["a"] % len(names)])
+                                w.emit("c10_op", vp, **desc)
+                                c.prepare_for_resubmission(sel, {})
+                                w.probe("prepare_resubmit_op")
+                                ret = {"value": None, "mem": mem_of(c)}
                         elif name == "mark_complete":
                             if c.config.is_complete:
                                 continue
